@@ -11,10 +11,22 @@ const zzFragMF = " fragment MF on Mutation{m3 mo{id}}"
 // return and whatever order hash maps are iterated in.
 func ZZ_C13_serial() {
 	nsel := zzParam("W", 3)
-	body := ""
+	body, rbody := "", ""
 	for i := 0; i < nsel; i++ {
-		body += " " + zzMutMenu[zzChoice("pick"+zzItoa(i), len(zzMutMenu))]
+		pick := zzMutMenu[zzChoice("pick"+zzItoa(i), len(zzMutMenu))]
+		body += " " + pick
+		rbody = " " + pick + rbody // the same selections in reverse order
 	}
+	// one more selection from the first W3 menu items (repeats of plain fields
+	// behind conditional duplicates)
+	if w3 := zzParam("W3", 0); w3 > 0 {
+		pick := zzMutMenu[zzChoice("pickLast", w3)]
+		body += " " + pick
+		rbody = " " + pick + rbody
+	}
+	// entry point: Do; a prepared plan; a normalising plan cache that has already
+	// served the same selections in the reverse order
+	via := zzChoice("via", 3)
 	frags := ""
 	if zzContains(body, "...MF") {
 		frags = zzFragMF
@@ -26,6 +38,7 @@ func ZZ_C13_serial() {
 		vars["v"] = zzBool("v")
 	}
 	text := head + "{" + body + " }" + frags
+	rtext := head + "{" + rbody + " }" + frags
 	w := &zzWorld{}
 	schema := zzBuildSchema(w)
 	doc := zzParse(text)
@@ -68,31 +81,66 @@ func ZZ_C13_serial() {
 		}
 		return nil, nil, false
 	}
-	zzMapOrder(true, zzParam("D", 1))
-	r := Do(Params{Schema: schema, RequestString: text, VariableValues: vars})
-	zzMapOrder(false, 0)
+	var r *Result
+	switch via {
+	case 0:
+		zzMapOrder(true, zzParam("D", 1))
+		r = Do(Params{Schema: schema, RequestString: text, VariableValues: vars})
+		zzMapOrder(false, 0)
+	case 1:
+		plan, perr := PlanQuery(&schema, doc, "")
+		zzAssert(perr == nil, "PlanQuery")
+		zzMapOrder(true, zzParam("D", 1))
+		r = ExecutePlan(plan, ExecuteParams{Schema: schema, Args: vars})
+		zzMapOrder(false, 0)
+	default:
+		cache := NewPlanCache(PlanCacheOptions{Normalize: true, MaxEntries: 4})
+		run := func(t string) *Result {
+			pr := cache.Get(&schema, t, "")
+			if len(pr.Errors) > 0 || pr.Plan == nil {
+				zzFail("plan cache rejected a valid document")
+			}
+			args := map[string]interface{}{}
+			for k, v := range vars {
+				args[k] = v
+			}
+			for k, v := range pr.SynthArgs {
+				args[k] = v
+			}
+			return ExecutePlan(pr.Plan, ExecuteParams{Schema: schema, Args: args})
+		}
+		run(rtext)
+		events = nil
+		*w = zzWorld{hook: w.hook, useIsTypeOf: w.useIsTypeOf, runtimeN: w.runtimeN}
+		r = run(text)
+	}
 	zzAssert(len(r.Errors) == 0, "unexpected errors")
 	// every deferred value, at whatever depth, has been forced: the response is
 	// the plain data tree
 	zzAssert(zzDeepEqual(r.Data, want), "mutation response differs from the execution algorithm's (a deferred value was left unforced?)")
-	// Document positions of every occurrence of each top-level key (skipped
-	// occurrences included, fragments expanded in place). Key A must finish
-	// before key B starts when all of A's occurrences precede all of B's; keys
-	// whose occurrences interleave are not ordered by the property.
+	// Document positions of every occurrence of each top-level key (fragments
+	// expanded in place). "The order they appear in the document" can be read
+	// for a merged key as the place of its first occurrence or as the place of
+	// its first occurrence that is included in this request; key A must finish
+	// before key B starts whenever A comes before B under BOTH readings (the
+	// check takes no side where they differ).
 	var flat []string
-	zzFlatten(zzOpOf(doc).SelectionSet, zzFragsOf(doc), &flat, 0)
-	minPos, maxPos := map[string]int{}, map[string]int{}
+	var incl []bool
+	zzFlattenIncl(&zzRef{w: w, vars: vars}, zzOpOf(doc).SelectionSet, zzFragsOf(doc), &flat, &incl, true, 0)
+	firstAll, firstIncl := map[string]int{}, map[string]int{}
 	for i, k := range flat {
-		if _, ok := minPos[k]; !ok {
-			minPos[k] = i
+		if _, ok := firstAll[k]; !ok {
+			firstAll[k] = i
 		}
-		maxPos[k] = i
+		if _, ok := firstIncl[k]; !ok && incl[i] {
+			firstIncl[k] = i
+		}
 	}
 	for i := 0; i < len(events); i++ {
 		for j := i + 1; j < len(events); j++ {
 			a, b := events[i], events[j]
 			if a != b {
-				zzAssert(!(maxPos[b] < minPos[a]), "work of a later top-level mutation field ran before an earlier field finished")
+				zzAssert(!(firstAll[b] < firstAll[a] && firstIncl[b] < firstIncl[a]), "work of a later top-level mutation field ran before an earlier field finished")
 			}
 		}
 	}
@@ -134,6 +182,32 @@ func zzFlatten(ss *ast.SelectionSet, frags map[string]*ast.FragmentDefinition, o
 		case *ast.FragmentSpread:
 			if f := frags[x.Name.Value]; f != nil {
 				zzFlatten(f.SelectionSet, frags, out, depth+1)
+			}
+		}
+	}
+}
+
+// zzFlattenIncl: like zzFlatten, and tells for every occurrence whether it is
+// included under the request's variables (its own directives and those of the
+// enclosing fragments).
+func zzFlattenIncl(r *zzRef, ss *ast.SelectionSet, frags map[string]*ast.FragmentDefinition, out *[]string, incl *[]bool, on bool, depth int) {
+	if ss == nil || depth > 5 {
+		return
+	}
+	for _, sel := range ss.Selections {
+		switch x := sel.(type) {
+		case *ast.Field:
+			k := x.Name.Value
+			if x.Alias != nil {
+				k = x.Alias.Value
+			}
+			*out = append(*out, k)
+			*incl = append(*incl, on && r.included(x.Directives))
+		case *ast.InlineFragment:
+			zzFlattenIncl(r, x.SelectionSet, frags, out, incl, on && r.included(x.Directives), depth+1)
+		case *ast.FragmentSpread:
+			if f := frags[x.Name.Value]; f != nil {
+				zzFlattenIncl(r, f.SelectionSet, frags, out, incl, on && r.included(x.Directives), depth+1)
 			}
 		}
 	}
